@@ -421,6 +421,26 @@ func c14Run(c *fw.Ctx, id string, cs c14Case, model []modelRow, opid string) {
 				sent, cs.R, handed, seqString(seq), cs.Scan.sig()), cs)
 		}
 	}
+	// once a response has said more_results=false the scan is over: the client may
+	// close the scanner, but must not ask it (or any other region) for more rows
+	if cs.End == "early-no-more" && atomic.LoadInt32(&faulted) == 1 {
+		ended := false
+		for _, e := range cl.Log.Snapshot() {
+			if e.OpID != opid {
+				continue
+			}
+			if e.Kind == "scan-reply" && strings.Contains(e.Info, "forced-no-more-results") {
+				ended = true
+				c.Count("scans_ended_by_the_server_mid_region", 1)
+				continue
+			}
+			if ended && (e.Kind == "scan-reply" || e.Kind == "scanner-open") {
+				c.Violate(id, "scanner:request-after-server-ended-scan", fmt.Sprintf("response %d said more_results=false (more_results_in_region=true), yet the client went on: %s %s: %s :: %s",
+					cs.R, e.Kind, e.Info, seqString(seq), cs.Scan.sig()), cs)
+				break
+			}
+		}
+	}
 	// conservation on the servers: poll until every scanner of this scan is gone
 	deadline := time.Now().Add(3 * time.Second)
 	var left []uint64
